@@ -10,6 +10,7 @@ exactly k when k newlines / k spaces are put in front. No reference semantics is
 """
 import glob
 import itertools
+import json
 import os
 
 from mc.core.runner import Space
@@ -280,6 +281,72 @@ def run_assign_call(payload):
     return ("ok" if not bad else "; ".join(bad[:25])) + "\x00ok"
 
 
+# an earlier step that leaves and re-enters the interpreter (nested eval, Function, a built-in that calls back, an error that is
+# caught), then a built-in that needs the running interpreter again: the later step gives what it gives on its own
+EARLIER = [
+    ("nothing", ""), ("eval", "eval('1 + 1');"), ("eval-caught-runtime-error", "try { eval('null.x') } catch (e0) { }"),
+    ("eval-caught-syntax-error", "try { eval('(') } catch (e0) { }"), ("eval-in-helper", "(function (s) { return eval(s) })('2 * 3');"),
+    ("eval-in-eval", "eval('eval(\\'1\\') + 1');"), ("eval-defines-function", "eval('function viaEval(x) { return x + 1 }'); viaEval(1);"),
+    ("eval-throws-through-callback", "try { [1].forEach(function () { eval('throw 1') }) } catch (e0) { }"),
+    ("Function", "new Function('a', 'return a + 1')(1);"), ("Function-caught", "try { new Function('return (')() } catch (e0) { }"),
+    ("Function-calls-eval", "new Function('return eval(\\'7\\')')();"), ("callback-built-in", "[3, 1, 2].sort(function (a, b) { return a - b });"),
+    ("callback-throws", "try { [1].map(function () { throw new Error('x') }) } catch (e0) { }"),
+    ("replace-callback", "'ab'.replace(/a/, function (m) { return eval('1 + 1') });"), ("getter-runs-eval", "({get g() { return eval('5') }}).g;"),
+    ("toString-runs-eval", "'' + {toString: function () { return eval('\\'s\\'') }};"), ("regex-in-eval", "eval('/a+/.test(\\'caat\\')');"),
+    ("json-replacer", "JSON.stringify({a: 1}, function (k, v) { return v });"),
+    ("eval-then-throw-caught", "try { eval('1'); throw new RangeError('after') } catch (e0) { }"),
+]
+LATER = [
+    "JSON.stringify({a: 1, b: [2, {c: 3}]}, function (k, v) { return typeof v === 'number' ? v + 1 : v })",
+    "JSON.stringify({toJSON: function () { return {t: 1} }})", "JSON.stringify({get g() { return 4 }})",
+    "JSON.parse('{\"a\":[1,2]}', function (k, v) { return typeof v === 'number' ? v * 2 : v }).a.join()",
+    "Object.keys({get g() { return 1 }, b: 2}).join()", "Object.values({get g() { return 1 }, b: 2}).join()",
+    "Object.entries({get g() { return 1 }}).join()", "Object.assign({}, {get g() { return 8 }}).g", "Object.assign({set s(v) { this.got = v }}, {s: 3}).got",
+    "Object.defineProperty({}, 'p', {get: function () { return 6 }}).p", "Object.create({}, {p: {get: function () { return 7 }}}).p",
+    "Object.getOwnPropertyDescriptor({get g() { return 1 }}, 'g').get()", "String({toString: function () { return 'ts' }})",
+    "'' + {valueOf: function () { return 3 }}", "[{toString: function () { return 'e' }}, 1].join()", "String(new Error('m'))",
+    "'' + (function () { var e = new Error('m'); Object.defineProperty(e, 'name', {get: function () { return 'Got' }}); return e })()",
+    "[3, 1, 2].sort(function (a, b) { return a - b }).join()", "[1, 2].map(function (x) { return x * 2 }).join()", "[1, 2].filter(function (x) { return x > 1 }).join()",
+    "[1, 2].reduce(function (a, b) { return a + b })", "[1, 2].some(function (x) { return x > 1 })", "[1, 2].find(function (x) { return x > 1 })",
+    "var fe = []; [1, 2].forEach(function (x) { fe.push(x) }); fe.join()", "'abab'.replace(/a/g, function (m, i) { return i })",
+    "'abab'.replaceAll('a', function (m) { return m + m })", "'a-b'.split({toString: function () { return '-' }}).join()",
+    "'abc'.indexOf({toString: function () { return 'c' }})", "new RegExp({toString: function () { return 'a+' }}).source",
+    "/a/.test({toString: function () { return 'cat' }})", "parseInt({toString: function () { return '42' }})", "Number({valueOf: function () { return 7 }})",
+    "Math.max({valueOf: function () { return 5 }}, 1)", "isNaN({valueOf: function () { return NaN }})", "new Array({valueOf: function () { return 2 }}).length",
+    "new Uint8Array({length: 1, get 0() { return 9 }})[0]", "new Uint8Array([{valueOf: function () { return 3 }}])[0]",
+    "(function (a, b) { return a + b }).apply(null, {length: 2, get 0() { return 1 }, 1: 2})", "(function () { return this.v }).call({get v() { return 'cv' }})",
+    "(function (a) { return a }).bind(null, 1)()", "encodeURIComponent({toString: function () { return 'a b' }})", "eval('[1].map(function (x) { return x + 1 })[0]')",
+    "new Function('f', 'return f(2)')(function (x) { return x * 3 })", "({}).hasOwnProperty.call({get g() { return 1 }}, 'g')",
+    "var o = {}; o[{toString: function () { return 'k' }}] = 1; Object.keys(o)[0]", "[1, [2, [3]]].toString()", "JSON.stringify([new Number(1), 'x'.concat({toString: function () { return 'y' }})])",
+    "try { null.x } catch (e1) { String(e1).slice(0, 9) }", "try { [1].forEach(function () { throw 5 }) } catch (e1) { e1 }",
+]
+
+
+def run_sequences(payload):
+    e = _engine()
+    bad = []
+    later = payload["later"]
+    base = e.run_program(later, tl=500)
+    if base.rpartition("|")[2].startswith("Ehost"):
+        bad.append("alone: " + base[-60:])
+    for name, earlier in EARLIER:
+        for sep in (" ", " void 0; "):
+            oc = e.run_program(earlier + sep + later, tl=500)
+            if oc != base:
+                bad.append("after %s: %s instead of %s" % (name, oc[-70:], base[-70:]))
+                break
+    # ... and across two evaluations of one context
+    for name, earlier in EARLIER[1:]:
+        oc2 = e.run_program("(0, eval)(%s)" % json.dumps(earlier or "0") + "; " + later, tl=500)
+        if oc2 != base:
+            bad.append("after eval of the text of %s: %s instead of %s" % (name, oc2[-70:], base[-70:]))
+    return ("ok" if not bad else "; ".join(bad[:4])) + "\x00ok"
+
+
+def _sequence_cases():
+    return [("every earlier step, then: " + l[:90], {"later": l}) for l in LATER]
+
+
 def _assign_cases():
     out = []
     for recv, props in SPECIAL_PROPS.items():
@@ -360,12 +427,33 @@ def _long_sources():
                 "1" + " ? 1 : 1" * min(n, 500), "f" + "()" * n, "new " * min(n, 500) + "F", "[" * min(n, 1000) + "]" * min(n, 1000),
                 "(" * min(n, 1000) + "1" + ")" * min(n, 1000), "{" * min(n, 1000) + "}" * min(n, 1000), "a = " * n + "1",
                 "var o = " + "{a: " * min(n, 500) + "1" + "}" * min(n, 500), "if (1) " * n + "2", "for (;;) " * 0 + "x: " * min(n, 300) + "1"]
-    return [("oversized tokens and long chains", {"sources": out, "positions": False})]
+    # counts around the one-byte operand limit of the instruction format (the property asks for JSError or a value there too)
+    for n in (254, 255, 256, 257, 258, 511, 512, 513):
+        m = n
+        out += ["[" + ", ".join(["1"] * m) + "].length", "f(" + ", ".join(["1"] * m) + ")", "new F(" + ", ".join(["1"] * m) + ")",
+                "(function (" + ", ".join("p%d" % i for i in range(m)) + ") { return p0 })(1)",
+                "(function () { var " + ", ".join("v%d = %d" % (i, i) for i in range(m)) + "; return v%d })()" % (m - 1),
+                "({" + ", ".join("k%d: 1" % i for i in range(m)) + "}).k0", "var s = 0; " + "".join("s += %d; " % (1000 + i) for i in range(min(m, 600))) + "s",
+                "var " + ", ".join("g%d = %d" % (i, i) for i in range(min(m, 600))) + "; g0", "Math.max(" + ", ".join(["1"] * min(m, 600)) + ")",
+                "[" + ", ".join('"s%d"' % i for i in range(min(m, 600))) + "].length"]
+    k = (len(out) + 7) // 8
+    return [("oversized tokens, long chains and counts around the operand limit, part %d" % i, {"sources": out[i * k:(i + 1) * k], "positions": False})
+            for i in range(8)]
 
 
 def _sp(name, runner, fn, rule, bound, batch=1, watchdog=600):
     return Space(name, "mc.props.c04:" + runner, fn, oracle="inline", rule=rule, bound=bound, batch=batch, watchdog=watchdog,
                  nontrivial=lambda cid, p, exp: exp != "absent")
+
+
+def _seq_space():
+    return _sp("c04_sequences", "run_sequences", _sequence_cases,
+               "%d earlier steps that leave and re-enter the interpreter (nested eval - plain, caught runtime / syntax error, in a helper, in eval, "
+               "through a callback - Function, callbacks of built-ins, getters and toString that run eval, built-ins with a replacer), each "
+               "followed by one of %d built-in calls that need the running interpreter (replacer / reviver / toJSON / getters seen by "
+               "Object.*, conversions through valueOf / toString at every built-in, callbacks, apply / call / bind, typed-array sources): "
+               "the later call gives exactly what it gives on its own, never a host exception" % (len(EARLIER), len(LATER)),
+               "%d x %d x 3" % (len(EARLIER), len(LATER)), batch=2)
 
 
 def spaces(tier, seed, all_strata=False):
@@ -397,6 +485,7 @@ def spaces(tier, seed, all_strata=False):
             "names) and 33 global functions/constructors, called and constructed with every argument vector of length 0..2 over the "
             "16-value adversarial grid; non-trivial = the method exists", "vectors <= 2", batch=4),
     ]
+    core.append(_seq_space())
     strata = [
         _sp("c04_prefixes_big", "run_sources", lambda: _file_cases("prefix", None, parts=8)[len(_file_cases("prefix", 4000)) * 0:],
             "prefixes of all corpus programs (files above 4 kB at ~4000 evenly spaced offsets)", "all files"),
